@@ -170,15 +170,28 @@ def generate(rng, prop, tier):
         # (results and exceptions of every operation are still compared at every step)
         'observe': rng.weighted([(7, 'full'), (3, 'sparse')]),
     }
+    sites = label in B.PERSISTENT and not risky and not cached and rng.chance(0.1)
+    if sites:
+        # the archives are addressed by names RELATIVE to the working directory, and the process moves between
+        # two directories that each hold archives under the same relative names: a fresh handle must always see
+        # the store of the directory it was opened in
+        case['sites'] = 2
+        case['backend']['rel'] = True
+        for sc in case['siblings']:
+            sc['rel'] = True
     n = rng.randint(4, 30) if not rng.chance(0.1) else rng.randint(30, 70)
     if bigvals:
         n = rng.randint(4, 12)
     table = C03_OPS if prop == 'C03' else C04_OPS
     ops = []
     ncopies = 0
+    copyseq = 0
     exec_used = 0
     for _ in range(n):
         kind = rng.weighted(table)
+        if sites and rng.chance(0.15):
+            ops.append({'op': 'site', 's': rng.below(2)})
+            ncopies = 0
         tgt = rng.below(1 + nsib + ncopies) if rng.chance(0.3) else 0
         op = {'op': kind, 't': tgt}
         k = lambda: rng.choice(keys)
@@ -214,7 +227,8 @@ def generate(rng, prop, tier):
                 op = {'op': 'items', 't': 0}
             else:
                 ncopies += 1
-                op['name'] = 'c%d' % ncopies
+                copyseq += 1
+                op['name'] = 'c%d' % copyseq
         elif kind == 'advance':
             op['dt'] = rng.weighted([(6, 0), (3, 1), (1, 2), (1, 3600), (1, -1)])
         elif kind == 'fresh':
@@ -236,6 +250,11 @@ def generate(rng, prop, tier):
             op['how'] = how
         elif kind == 'memo':
             op['xs'] = [rng.randint(0, 5) for _ in range(rng.randint(1, 3))]
+        if sites and (label.startswith('dir') or label.startswith('sql')) and rng.chance(0.25) \
+           and op['op'] not in ('copy', 'reader', 'memo', 'fresh', 'advance', 'site'):
+            # the process is somewhere else when it uses a handle it opened earlier: directory and sqlite
+            # archives are bound to their location when opened (single-file archives keep the name as given)
+            op['away'] = True
         ops.append(op)
     if prop == 'C04':
         ops.append({'op': 'reader', 't': 0, 'how': rng.weighted(READERS)})
@@ -296,9 +315,28 @@ class World(object):
         self.archs = []
         self.models = []
         self.cached = case.get('cached', False)
+        self.cwd = root
+        self.site = 0
+        self.nbase = len(self.cfgs)
+        self.site_models = {}
+        if case.get('sites'):
+            for i in range(case['sites']):
+                os.makedirs(os.path.join(root, 'site%d' % i))
+            self.cwd = os.path.join(root, 'site0')
+            os.chdir(self.cwd)
         for cfg in self.cfgs:
             self.archs.append(B.make(cfg, root, cached=self.cached))
             self.models.append({})
+
+    def switch_site(self, s):
+        """move the process to the other directory and open fresh handles on the same relative names"""
+        self.site_models[self.site] = self.models[:self.nbase]
+        self.site = s
+        self.cwd = os.path.join(self.root, 'site%d' % s)
+        os.chdir(self.cwd)
+        self.cfgs = self.cfgs[:self.nbase]
+        self.models = self.site_models.get(s) or [{} for _ in range(self.nbase)]
+        self.archs = [B.make(cfg, self.root, cached=self.cached) for cfg in self.cfgs]
 
     def fresh(self, i):
         cfg = self.cfgs[i]
@@ -598,10 +636,10 @@ def read_via(w, i, how, ctx):
             "r = B.make(cfg, %r, cached=False)\n"
             "print(json.dumps([[enc(k), enc(v)] for k, v in r.items()]))\n"
         ) % (os.path.dirname(os.path.dirname(os.path.dirname(os.path.abspath(__file__)))),
-             w.root, json.dumps(cfg), w.root)
+             w.cwd, json.dumps(cfg), w.cwd)
         env = dict(os.environ)
         env['PYTHONHASHSEED'] = str((int(env.get('PYTHONHASHSEED', '0') or 0) + 12345) % (2 ** 32))
-        p = subprocess.run([sys.executable, '-c', script], env=env, cwd=w.root,
+        p = subprocess.run([sys.executable, '-c', script], env=env, cwd=w.cwd,
                            stdout=subprocess.PIPE, stderr=subprocess.PIPE, timeout=120)
         if p.returncode != 0:
             raise Mismatch('read-raises', "reader in exec'd interpreter failed: "
@@ -679,6 +717,14 @@ def execute(case, prop, ctx):
                     bump(faults, 'clock-advance-%s' % ('same-second' if op['dt'] == 0 else
                                                        'back' if op['dt'] < 0 else 'forward'))
                     continue
+                if kind == 'site':
+                    if case.get('sites'):
+                        w.switch_site(op['s'])
+                        bump(faults, 'chdir-to-other-site')
+                        for i in range(len(w.archs)):
+                            check_contents(w, i, 'after moving to site %d (step %d)' % (op['s'], step))
+                        shape.append('site%d' % op['s'])
+                    continue
                 if kind == 'fresh':
                     if w.fresh(t):
                         bump(faults, 'fresh-handle')
@@ -751,10 +797,18 @@ def execute(case, prop, ctx):
                             exp = ('ok', same_dict({}, w.models[op['o']] if w.cfgs[op['o']]['label'] != 'null' else {}))
                     elif kind != 'popitem':
                         exp = call(lambda: do_model(m, op, w))
+                    away = op.get('away') and case.get('sites')
+                    if away:
+                        os.makedirs(os.path.join(root, 'elsewhere'), exist_ok=True)
+                        os.chdir(os.path.join(root, 'elsewhere'))
+                        bump(faults, 'handle-used-from-another-cwd')
                     try:
                         got = call(lambda: do_arch(a, op, w))
                     except Mismatch:
                         raise
+                    finally:
+                        if away:
+                            os.chdir(w.cwd)
                     if kind == 'popitem' and not null:
                         # any present item may be returned: the model adopts it
                         if not m:
@@ -821,6 +875,13 @@ def simplify(case):
     if case.get('observe') == 'sparse':
         c = _copy.deepcopy(case)
         c['observe'] = 'full'
+        yield c
+    if case.get('sites') and not any(op['op'] == 'site' for op in case['ops']):
+        c = _copy.deepcopy(case)
+        del c['sites']
+        c['backend'].pop('rel', None)
+        for sc in c['siblings']:
+            sc.pop('rel', None)
         yield c
     src = case['backend']['label'] in ('file-src', 'dir-src')
     if src:
